@@ -15,14 +15,23 @@ theorem childIndex_real (p a s : ℝ) (hs : 0 < s) (h1 : a ≤ p) (h2 : p < a + 
   unfold childIndex
   constructor
   · intro h
-    rw [toNat_eq_iff _ hq]
-    refine ⟨by simpa using hq, ?_⟩
-    rw [div_lt_iff₀ hs]; norm_num at h ⊢; linarith
+    have : Trunc.toNat (2.0 * (p - a) / s) = 0 := by
+      rw [toNat_eq_iff _ hq]
+      refine ⟨by simpa using hq, ?_⟩
+      rw [div_lt_iff₀ hs]; norm_num at h ⊢; linarith
+    rw [this]; rfl
   · intro h
-    rw [toNat_eq_iff _ hq]
-    constructor
-    · rw [le_div_iff₀ hs]; norm_num at h ⊢; linarith
-    · rw [div_lt_iff₀ hs]; norm_num; linarith
+    have : Trunc.toNat (2.0 * (p - a) / s) = 1 := by
+      rw [toNat_eq_iff _ hq]
+      constructor
+      · rw [le_div_iff₀ hs]; norm_num at h ⊢; linarith
+      · rw [div_lt_iff₀ hs]; norm_num; linarith
+    rw [this]; rfl
+
+/-- the clamp makes the child index 0 or 1 for every numeric type and every position -/
+theorem childIndex_le_one {α : Type} [Sub α] [Mul α] [Div α] [OfScientific α] [Trunc α] (p a s : α) :
+    childIndex p a s ≤ 1 := by
+  unfold childIndex; exact Nat.min_le_right _ _
 
 theorem childIndex_lt_two (p a s : ℝ) (hs : 0 < s) (h1 : a ≤ p) (h2 : p < a + s) :
     childIndex p a s < 2 := by
@@ -142,14 +151,14 @@ theorem mem_leafPaths_node (c : Fin 8 → Tree) (π : List Nat) :
     | ⟨7, _⟩, hr => exact Or.inr ⟨r, hr, rfl⟩
 
 /-- the descent by position ends in a leaf whose box contains the position; its key is the key
-of that leaf's path; no child index leaves `{0,1}` -/
+of that leaf's path -/
 theorem descend_spec (t : Tree) : ∀ (L : Nat) (b : Box3 ℝ) (p : V3 ℝ), PosBox b → InBox b p →
-    InBox (descend t L p b).2 p ∧ descendOutOfRange t p b = false ∧
+    InBox (descend t L p b).2 p ∧
     ∃ π ∈ leafPaths t, (descend t L p b).1 = 2 ^ (3 * L) * encodeKey π ∧ (descend t L p b).2 = boxOfPath b π := by
   induction t with
   | leaf =>
     intro L b p _ hp
-    exact ⟨hp, rfl, [], by simp [leafPaths], by simp [descend, encodeKey], rfl⟩
+    exact ⟨hp, [], by simp [leafPaths], by simp [descend, encodeKey], rfl⟩
   | node c ih =>
     intro L b p hb hp
     obtain ⟨hx1, hx2, hy1, hy2, hz1, hz2⟩ := hp
@@ -163,16 +172,13 @@ theorem descend_spec (t : Tree) : ∀ (L : Nat) (b : Box3 ℝ) (p : V3 ℝ), Pos
     generalize hize : childIndex p.z b.az b.sz = iz at *
     have hcell : (4 * ix + 2 * iy + iz) % 8 = 4 * ix + 2 * iy + iz := by omega
     let i : Fin 8 := ⟨(4 * ix + 2 * iy + iz) % 8, Nat.mod_lt _ (by decide)⟩
-    obtain ⟨h1, h2, π, hπ, h3, h4⟩ := ih i (L + 1) (childBox b ix iy iz) p hcpos hcin
+    obtain ⟨h1, π, hπ, h3, h4⟩ := ih i (L + 1) (childBox b ix iy iz) p hcpos hcin
     have hd : descend (.node c) L p b =
         ((4 * ix + 2 * iy + iz) * 2 ^ (3 * L) + (descend (c i) (L + 1) p (childBox b ix iy iz)).1,
           (descend (c i) (L + 1) p (childBox b ix iy iz)).2) := by
       simp only [descend, hixe, hiye, hize]; rfl
-    have ho : descendOutOfRange (.node c) p b = descendOutOfRange (c i) p (childBox b ix iy iz) := by
-      simp only [descendOutOfRange, hixe, hiye, hize]
-      rw [if_neg (by omega)]
-    rw [hd, ho]
-    refine ⟨h1, h2, i.val :: π, (mem_leafPaths_node c _).2 ⟨i, π, hπ, rfl⟩, ?_, ?_⟩
+    rw [hd]
+    refine ⟨h1, i.val :: π, (mem_leafPaths_node c _).2 ⟨i, π, hπ, rfl⟩, ?_, ?_⟩
     · simp only [h3, encodeKey]
       show (4 * ix + 2 * iy + iz) * 2 ^ (3 * L) + 2 ^ (3 * (L + 1)) * encodeKey π
         = 2 ^ (3 * L) * ((4 * ix + 2 * iy + iz) % 8 + 8 * encodeKey π)
